@@ -119,23 +119,26 @@ func (ctx *MetricContext) handleResponse(resp *protoCommonV1.TaskResponse, fromN
 		ctx.aggregatorSpecs[spec.FieldName] = spec
 	}
 
-	if ctx.groupAgg == nil {
-		AggregatorSpecs := make(aggregation.AggregatorSpecs, len(tsList.FieldAggSpecs))
-		for idx, aggSpec := range tsList.FieldAggSpecs {
-			AggregatorSpecs[idx] = aggregation.NewAggregatorSpec(
-				field.Name(aggSpec.FieldName),
-				field.Type(aggSpec.FieldType),
-			)
-			for _, funcType := range aggSpec.FuncTypeList {
-				AggregatorSpecs[idx].AddFunctionType(function.FuncType(funcType))
-			}
+	AggregatorSpecs := make(aggregation.AggregatorSpecs, len(tsList.FieldAggSpecs))
+	for idx, aggSpec := range tsList.FieldAggSpecs {
+		AggregatorSpecs[idx] = aggregation.NewAggregatorSpec(
+			field.Name(aggSpec.FieldName),
+			field.Type(aggSpec.FieldType),
+		)
+		for _, funcType := range aggSpec.FuncTypeList {
+			AggregatorSpecs[idx].AddFunctionType(function.FuncType(funcType))
 		}
+	}
+	if ctx.groupAgg == nil {
 		ctx.groupAgg = newGroupingAgg(
 			timeutil.Interval(ctx.interval),
 			1, // interval ratio is 1 when do merge result.
 			ctx.timeRange,
 			AggregatorSpecs,
 		)
+	} else {
+		// another node may know fields which the first answering node does not know
+		ctx.groupAgg.AddAggregatorSpecs(AggregatorSpecs)
 	}
 
 	for _, ts := range tsList.TimeSeriesList {
